@@ -207,7 +207,7 @@ pub fn run(ctx: &RunCtx) -> i32 {
         // i == menu_v.len(): the empty body
         let firsts: Vec<L> = if *i == menu_v.len() { vec![] } else { vec![menu_v[*i].clone()] };
         // quick tier: pairs only under the first three keys
-        let seconds: Vec<Option<&L>> = if firsts.is_empty() || (!thorough && *ki >= 3) { vec![None] } else { std::iter::once(None).chain(menu_v.iter().map(Some)).collect() };
+        let seconds: Vec<Option<&L>> = if firsts.is_empty() || *ki >= 3 { vec![None] } else { std::iter::once(None).chain(menu_v.iter().map(Some)).collect() };
         for (j, second) in seconds.iter().enumerate() {
             for (ti, tail) in tails.iter().enumerate() {
                 let mut attrs = firsts.clone();
@@ -252,7 +252,7 @@ pub fn run(ctx: &RunCtx) -> i32 {
         rep,
         Finish {
             level: "fault_enumeration",
-            rule: format!("messages with 0..=2 body attributes over the {}-entry menu (values <=64 bytes; long values as singles) x 6 legal tails containing MI and/or SHA256 x {} keys (short-term incl. non-ASCII, long-term MD5 and SHA-256); for each: wire bytes == reference (independent HMAC over the RFC input under the independently derived key), every integrity attribute accepted under the right key whatever tail follows, rejected under every key differing in one character of user / realm / password (or algorithm), and rejected after every single-bit fault in the protected prefix (except header bytes 2-3), the attribute's own header and the MAC (quick tier: pairs walk faults under one rotating tail, pairs only under the first 3 keys). Acceptance = validating decoder returns the attribute OR get_input_text+validate says true. Non-trivial = message that passed all of these", menu_v.len(), keys.len()),
+            rule: format!("messages with 0..=2 body attributes over the {}-entry menu (values <=64 bytes; long values as singles) x 6 legal tails containing MI and/or SHA256 x {} keys (short-term incl. non-ASCII, long-term MD5 and SHA-256); for each: wire bytes == reference (independent HMAC over the RFC input under the independently derived key), every integrity attribute accepted under the right key whatever tail follows, rejected under every key differing in one character of user / realm / password (or algorithm), and rejected after every single-bit fault in the protected prefix (except header bytes 2-3), the attribute's own header and the MAC (pairs only under the first 3 keys; quick tier: pairs walk faults under one rotating tail). Acceptance = validating decoder returns the attribute OR get_input_text+validate says true. Non-trivial = message that passed all of these", menu_v.len(), keys.len()),
             assumptions: vec!["R-strings table for the non-ASCII passwords".into()],
             required_symbols: vec!["key-derivation", "accepted-untampered", "rejected-wrong-key", "fault-walks", "long-values"],
             min_outcomes: 2,
